@@ -3,13 +3,13 @@ use crate::{
     error::{WriterError, WriterResult},
     model::{TryFromNode, field::resolve_type},
 };
-use std::{collections::HashMap, rc::Rc};
+use std::{collections::BTreeMap, rc::Rc};
 
 type XmlName = String;
 
 pub struct SoapPort {
     pub xml_name: String,
-    pub operations: HashMap<XmlName, SoapOperation>,
+    pub operations: BTreeMap<XmlName, SoapOperation>,
 }
 
 pub struct SoapOperation {
@@ -41,7 +41,7 @@ impl<'n> TryFromNode<'n> for SoapPort {
                 let opp = SoapOperation::try_from_node(o, doc)?;
                 Ok((name, opp))
             })
-            .collect::<WriterResult<HashMap<XmlName, SoapOperation>>>()?;
+            .collect::<WriterResult<BTreeMap<XmlName, SoapOperation>>>()?;
 
         Ok(SoapPort { xml_name, operations })
     }
